@@ -1068,7 +1068,8 @@ class Interp(object):
 
     def truth(self, v):
         if isinstance(v, T):
-            return self.branch(v)
+            # Python truthiness of a number: non-zero
+            return self.branch(v if v.is_bool else tm.mk_not(tm.mk_eq(v, tm.ZERO)))
         if isinstance(v, np.ndarray) and v.dtype == object and v.size == 1:
             return self.truth(v.reshape(-1)[0])
         if isinstance(v, Obj):
